@@ -44,11 +44,11 @@ type c10Triple struct {
 type c10Run struct {
 	T       c10Triple
 	Kind    string // incremental | fullsync
-	Variant string // stamp | drop | dup | create | identity | idcopy
+	Variant string // stamp | drop | dup | create | identity | idcopy | append (grows the input array in place)
 	Sink    string // ds | http
 }
 
-var c10Variants = []string{"stamp", "drop", "dup", "create", "identity", "idcopy"}
+var c10Variants = []string{"stamp", "drop", "dup", "create", "identity", "idcopy", "append"}
 
 func c10BoxBounds(tier string) (N, B, P int) {
 	if tier == "thorough" {
@@ -171,6 +171,11 @@ func c10Code(variant, tag string) string {
 		ret = "return entities;"
 	case "idcopy":
 		body = `out.push(NewEntityFrom(e, false, true, true));`
+	case "append":
+		// stamps in place, appends one created entity to the INPUT array and returns that array
+		body = `e["Properties"][pfx+":stamp"] = u;`
+		ret = `if (entities.length > 0) { var a = NewEntity(); SetId(a, GetId(entities[0]) + "-a"); a["Properties"][pfx+":stamp"] = "appended"; entities.push(a); }
+  return entities;`
 	}
 	return `function transform_entities(entities) {
   var pfx = GetNamespacePrefix("` + gen.NsP + `");
@@ -574,6 +579,8 @@ func (st *c10State) runOne(caseID string, pos int, r c10Run, what map[string]any
 				exp = append(exp, id+"|"+s+"|0", id+"|"+s+"|1")
 			case "create":
 				exp = append(exp, id+"|"+s+"|", id+"-c|"+s+"|")
+			case "append":
+				exp = append(exp, id+"|"+s+"|")
 			}
 		}
 	}
@@ -606,11 +613,15 @@ func (st *c10State) runOne(caseID string, pos int, r c10Run, what map[string]any
 			if v, ok := f.Props[gen.NsP+"copy"]; ok {
 				cp = fmt.Sprint(v)
 			}
+			if r.Variant == "append" && strings.HasSuffix(f.ID, "-a") {
+				out.Stat("appended_entities_in_sink", 1)
+				continue // one per transform call; how many calls there are is the pipeline's business
+			}
 			got = append(got, c10Local(f.ID)+"|"+stamp+"|"+cp)
 		}
 	}
 	switch r.Variant {
-	case "stamp", "drop", "dup", "create":
+	case "stamp", "drop", "dup", "create", "append":
 		if !c10EqStr(exp, got) {
 			em, gm := c10Bag(exp), c10Bag(got)
 			var missing, extra []string
